@@ -337,6 +337,14 @@ class PathEnum:
                             ekey = rkey
                             env["@rootwrite:" + rkey] = t
                     events = events + [("assign", ebb, si, ekey, t, lv_term)]
+                    from .core import EMBEDS, ALIASES, simplify as _simp
+                    if EMBEDS:
+                        # a write of a whole grouping sub-struct is a write of each frozen field it stands for
+                        for (P_, g_), S_ in EMBEDS.items():
+                            if ekey.endswith("." + g_):
+                                for (S2_, f_), (P2_, role_) in ALIASES.items():
+                                    if S2_ == S_:
+                                        events = events + [("assign", ebb, si, ekey[: -len(g_)] + role_, _simp(("field", t, S_, f_)), None)]
                 elif s["k"] == "setdiscr":
                     events = events + [("setdiscr", ebb, si, self._evkey(s["place"]), s["vidx"])]
             t = b["term"]
